@@ -109,6 +109,18 @@ func c15(r *Run) {
 			return f != nil && f.Name() == "Close" && f.Pkg != nil && f.Pkg.Pkg.Path() == "os"
 		}
 		r.mustPass("C15.R2:listener-file-closed", "when the listener holds an os.File it is closed (closing the duplicate descriptor)", lc, nil, edgesEstablishing(lc, fileSet), isFileClose, nil, nil, "file.Close() on every path from file != nil")
+		// ... and Close gets there on every path: nothing (a failing Close of the wrapped listener, say) returns before the
+		// duplicate was dealt with
+		{
+			noFd := cmpAtom(func(v ssa.Value) bool { _, ok := loadOfField(v, "listener", "fd"); return ok }, isConstEq(0), eqRel)
+			isRaw := func(i ssa.Instruction) bool {
+				return isSysCall("Close")(i) && strings.HasSuffix(pathOf(callCommon(i).Args[0]), ".fd")
+			}
+			ss := &Search{Fn: lc, Stop: func(i ssa.Instruction) bool { return isFileClose(i) || isRaw(i) }, CutEdge: cutOn(noFd)}
+			wit := ss.Find([]Start{Entry(lc)}, nil, true)
+			r.Visited += ss.Visited
+			r.obW("C15.R2:listener-close-always-reaches-the-duplicate", "every path through listener.Close closes netpoll's duplicate of the listening descriptor (through its os.File, or raw) unless there is none: an early return - e.g. because closing the caller's net.Listener failed, which it does when the application closed it first - would leave the port listening", lc, nil, wit, "file.Close() / close(fd) on every path (or fd == 0)")
+		}
 		// the wrapped net.Listener is closed too
 		r.mustPass("C15.R2:wrapped-listener-closed", "the wrapped net.Listener (the original descriptor) is closed when present", lc, nil,
 			edgesEstablishing(lc, cmpAtom(func(v ssa.Value) bool { _, ok := loadOfField(v, "listener", "ln"); return ok }, isNilConst, neqRel)),
@@ -199,7 +211,7 @@ func c15(r *Run) {
 		}
 	}
 	// the descriptor is closed by the finalizer, which always runs once the callbacks run (C05.R11)
-	r.borrow([]string{"C05.R11:runner-completes", "C05.R5:walk-is-complete", "C05.R8:finalizer-complete:netFD.Close"}, "C05.R", "C15.R3.teardown.", func() { c05(r) })
+	r.borrow([]string{"C05.R11:runner-completes", "C05.R5:walk-is-complete", "C05.R8:finalizer-complete:netFD.Close", "C05.R7:panic-path-closes"}, "C05.R", "C15.R3.teardown.", func() { c05(r) })
 	// once a netFD was handed to a connection (init copies it, register() closes it on failure) the dial path does not
 	// close it again through its own copy
 	for _, name := range []string{"(*sysDialer).dialTCP", "(*sysDialer).dialUnix"} {
@@ -340,7 +352,7 @@ func c15(r *Run) {
 			}
 		}
 		// ... and they are the right ones (C18.R3)
-		r.borrow([]string{"C18.R3:shrink-closes-surplus"}, "C18.R3", "C15.R5", func() { c18(r) })
+		r.borrow([]string{"C18.R3:shrink-closes-surplus", "C18.R3:opened-is-started"}, "C18.R3", "C15.R5", func() { c18(r) })
 		mc := w.MustFn("(*manager).Close")
 		r.ob("C15.R5:manager-close-closes-all", "manager.Close closes every poller", mc, nil, len(findIns(mc, isPollClose)) > 0, "poll.Close() in a range over polls", false)
 	}
